@@ -14,7 +14,15 @@ from ..genekernel import (chrom_parent, chunk_parent, gene_interp, mk_collection
                           mk_transcript)
 from ..interp import ClassTok, Obj, Raised, Uninterpretable
 from ..lockernel import blocks_of, is_empty_obj, run, strands
-from .c05 import GENOME, _report, _runner, bases
+from .c05 import GENOME as _GENOME_UPPER, _report, _runner, bases as _bases
+
+# a soft-masked genome (lower-case stretch): the sequences of a query result are the source's characters, case included
+GENOME = _GENOME_UPPER[:14] + _GENOME_UPPER[14:33].lower() + _GENOME_UPPER[33:]
+
+
+def bases(pos_list, strand_name):
+    return _bases(pos_list, strand_name, GENOME)
+
 from .c08 import plain
 
 def _stable(x):
